@@ -242,9 +242,9 @@ def colliding_uids(drv, wd, n=150000):
     for l in out.split('\n'):
         if not l: continue
         u, h = l.split(); h = int(h)
-        for bits in (16, 12, 8, 4):
+        for bits in (22, 20, 16, 12, 8, 4):
             by.setdefault((bits, h & ((1 << bits) - 1)), []).append(u)
-    for bits in (16, 12, 8, 4):
+    for bits in (22, 20, 16, 12, 8, 4):     # 20 or 22 shared bits: the table of tasks grows to 2^21 or 2^23 slots to tell the two apart
         gs = [v for (b, _), v in by.items() if b == bits and len(v) >= 2]
         gs.sort(key=len, reverse=True)
         res += [(bits, g[:4]) for g in gs[:6]]
@@ -453,6 +453,19 @@ def chk_experiment(drv, wd, cmds, metas, k=None, mode=None):
     shutil.rmtree(spool, ignore_errors=True)
     return {'e': 'CkRun', 'k': k or 0, 'mode': mode or 'none', 'rc': rc, 'rc2': rc2, 'ev': ev, 'files': files, 'armed': armed,
             'rc3': rc3 or rc4, 'ev3': ev3, 'files3': files3, 'armed3': armed3}
+
+
+def brim_history(rnd, base, n=50, user=1000, rule=False):
+    """n tasks each printed in more than 4 KiB (75 addressees), alike but for the length of the DESCRIPTION, base..base+n-1: the
+    pieces printed after the bulk end on every position around the end of the 4 KiB print buffer, the last byte included"""
+    cmds, metas = [], {}
+    att = ['ATTENDEE:mailto:%s@example.com' % ('y' * 30) for _ in range(75)]
+    for i in range(n):
+        it = {'kind': 'add', 'uid': 'w%d' % i, 'occ': [5000 + i] if rule else [5000 + i % 40, 5100 + i], 'past_rule': rule, 'maxsim': rnd.choice([2, 3, 11]), 'peer': user,
+              'extra': att[:40] + ['DESCRIPTION:' + 'x' * (base + i)] + att[40:]}
+        metas[len(cmds)] = [it]; cmds.append('A\t%d\t%s' % (user, rrgen.esc(request([it]))))
+    cmds += ['K', 'S']
+    return cmds, metas
 
 
 def chk_history(rnd, users=(1000, 1001), uids=('a', 'b', 'c', 'd'), nreq=5, fat=False, every_user=False):
